@@ -206,11 +206,11 @@ func errMsg(r vlib.Result) string {
 
 func TestC18(t *testing.T) {
 	h := vlib.New(t, "C18", "fault_enumeration",
-		"option sets (every singleton of the 30 kinds, pairs with INCLUDE / MACRO / PASTE, sampled larger sets) x valid generated projects, cut into files or not, that do or do not hold a directive of a banned kind (directly, in a pasted macro, in an included file, in a never-pasted macro; INCLUDE also with its target file removed); oracle: occurrence => rejected with the 'not allowed' diagnostic at the keyword of a banned directive (so before the named file is needed), no occurrence => verdict, diagnostic and JSON identical to the run without the option; non-trivial = occurrence present, or absent with >= 5 directives; distinct by (project, option set)",
+		"option sets (every singleton of the 30 kinds, pairs with INCLUDE / MACRO / PASTE, sampled larger sets) x valid generated projects, cut into files or not, that do or do not hold a directive of a banned kind (directly, in a pasted macro, in an included file, in a never-pasted macro; INCLUDE also with its target file removed); oracle: occurrence => rejected with the 'not allowed' diagnostic at the keyword of a banned directive (so before the named file is needed), no occurrence => verdict, diagnostic and JSON identical to the run without the option; option values kept by the caller and reused for other projects together with other bans must behave like fresh ones; non-trivial = occurrence present, or absent with >= 5 directives; distinct by (project, option set)",
 		"'before any file it names is read' is observed through a missing target: the diagnostic must be the ban, not 'isn't exists'")
 	defer vlib.CleanupScratch()
 	kinds := vlib.KindNames()
-	req := []string{"present", "absent", "route:direct", "route:included", "route:in-pasted-macro", "route:in-unused-macro", "include-target-missing", "several-option-values"}
+	req := []string{"present", "absent", "route:direct", "route:included", "route:in-pasted-macro", "route:in-unused-macro", "include-target-missing", "several-option-values", "reused-option-values"}
 	for _, k := range kinds {
 		req = append(req, "ban:"+k)
 	}
@@ -236,4 +236,40 @@ func TestC18(t *testing.T) {
 	}
 	runRegression(h, c18Regression)
 	vlib.Rapid(h, "bans-over-generated-projects", h.N(20000, 600000), gen, c18Check)
+
+	// option values kept by the caller and given to several projects: what one
+	// project's option set holds must not leak into another's
+	type reuse struct {
+		A, B   string
+		K1, K2 []string
+	}
+	vlib.Rapid(h, "reused-ban-option-values", h.N(2000, 80000), func(t *rapid.T) reuse {
+		d1 := vlib.GenDoc(t, vlib.GenOpts{Macros: rapid.Bool().Draw(t, "m1"), TopPasteAnywhere: true})
+		d2 := vlib.GenDoc(t, vlib.GenOpts{Macros: rapid.Bool().Draw(t, "m2"), TopPasteAnywhere: true})
+		return reuse{A: vlib.Render(d1, vlib.Style{}).Text, B: vlib.Render(d2, vlib.Style{}).Text,
+			K1: rapid.SliceOfNDistinct(rapid.SampledFrom(kinds), 1, 2, rapid.ID[string]).Draw(t, "k1"),
+			K2: rapid.SliceOfNDistinct(rapid.SampledFrom(kinds), 1, 3, rapid.ID[string]).Draw(t, "k2")}
+	}, func(c reuse, info *vlib.Info) *vlib.Failure {
+		info.NonTrivial = true
+		info.Class("reused-option-values")
+		key := func(r vlib.Result) string {
+			if r.Accepted {
+				return "OK " + vlib.MaskExamples(r.JSON)
+			}
+			return "REJECTED " + errMsg(r)
+		}
+		o1, o2 := vlib.BanOption(c.K1...), vlib.BanOption(c.K2...)
+		want1 := key(vlib.RunWithOptions(c.B, vlib.FixedSeedOption(), vlib.BanOption(c.K1...)))
+		want2 := key(vlib.RunWithOptions(c.B, vlib.FixedSeedOption(), vlib.BanOption(c.K2...)))
+		_ = vlib.RunWithOptions(c.A, vlib.FixedSeedOption(), o1, o2)
+		got1 := key(vlib.RunWithOptions(c.B, vlib.FixedSeedOption(), o1))
+		got2 := key(vlib.RunWithOptions(c.B, vlib.FixedSeedOption(), o2))
+		if got1 != want1 {
+			return vlib.Failf("ban-leaks-between-option-values", "ban %v: after the option value was used together with a ban of %v for another project, a project gives\n%s\ninstead of\n%s\n--- source:\n%s", c.K1, c.K2, trunc(got1, 300), trunc(want1, 300), c.B)
+		}
+		if got2 != want2 {
+			return vlib.Failf("ban-leaks-between-option-values", "ban %v: after the option value was used together with a ban of %v for another project, a project gives\n%s\ninstead of\n%s\n--- source:\n%s", c.K2, c.K1, trunc(got2, 300), trunc(want2, 300), c.B)
+		}
+		return nil
+	})
 }
